@@ -4,7 +4,26 @@ from props.c03 import TRUSTED, ASSUMPTIONS
 COQCHK = False
 NAMES = ['c12']
 PROFILE = {'quick': 500, 'thorough': 25000, 'lengths': [10, 18], 'finale': ['settle'], 'weights': {'bad': 30, 'poll': 10, 'post': 10, 'open': 6, 'open_ws': 3, 'open_rej': 3, 'upgrade': 5, 'frame': 6, 'disc': 4, 'send': 4, 'adv': 6, 'api': 2}, 'p_websocket': 0.8, 'p_polling': 0.9}
-RULE = ('seeded histories (opens with every connect outcome, polls, posts, upgrade handshakes, WebSocket frames and closes, application calls, refused requests, clock advances) over up to 4 sessions, each run on the threaded and the asyncio server and through the model; '
+import hist
+
+
+def _gate_histories():
+    """the transport gate against every spelling of the upgrade headers: header values are case-insensitive, the `transport` query
+    value is not; with and without the websocket transport, for an upgrade that names transport=websocket and for a poll that
+    carries upgrade headers (transport=polling)"""
+    out = []
+    for ws_allowed in (True, False):
+        for tr in ('websocket', 'polling'):
+            for spelling in (('websocket', 'Upgrade'), ('WebSocket', 'upgrade'), ('WEBSOCKET', 'keep-alive, Upgrade'), ('Websocket', 'UPGRADE')):
+                cfg = hist.Cfg(websocket=ws_allowed)
+                out.append((cfg, [('open', 'polling', 'accept'), ('poll', 0), ('upgrade', 0, tr, spelling), ('frame', 0, ('ping', True)), ('frame', 0, ('pk', 'upgrade')),
+                                  ('send', 0, 1), ('poll', 0), ('frame', 0, ('pk', ('msg', 2, 'none'))), ('post', 0, ('pk', [('msg', 3, 'none')])), ('transport', 0)]))
+    return out
+
+
+PROFILE['fixed'] = _gate_histories()
+RULE = ('the transport gate on a grid (websocket allowed or not) x (upgrade naming transport=websocket / a poll carrying upgrade headers) x (4 spellings of the Upgrade and Connection header values); '
+        'seeded histories (opens with every connect outcome, polls, posts, upgrade handshakes, WebSocket frames and closes, application calls, refused requests, clock advances) over up to 4 sessions, each run on the threaded and the asyncio server and through the model; '
         'weighted towards refused requests (method, EIO version, transport value, unknown / closed-not-reaped / rejected / wrong-transport session ids, JSONP index, missing upgrade header, disallowed origin) issued at every point of session lives, with before/after state snapshots. distinct = distinct (server, configuration, stimuli)')
 
 
